@@ -680,15 +680,37 @@ int gd_uninclude(DIRFILE* D, int fragment_index, int del)
     for (j = 0; j < nf; ++j)
       gd_UnlinkAt(D, D->fragment[f[j]].dirfd, D->fragment[f[j]].bname, 0);
 
+  /* the reference field goes away with its fragment */
+  if (D->reference_field &&
+      _GD_ContainsFragment(f, nf, D->reference_field->fragment_index))
+  {
+    D->reference_field = NULL;
+  }
+
+  /* a metafield whose parent stays behind (it can live in another fragment
+   * than its parent) must leave the parent's subfield list */
+  for (i = 0; i < D->n_entries; ++i) {
+    gd_entry_t *E = D->entry[i];
+    if (E->e->n_meta == -1 && E->e->p.parent &&
+        _GD_ContainsFragment(f, nf, E->fragment_index) &&
+        !_GD_ContainsFragment(f, nf, E->e->p.parent->fragment_index))
+    {
+      struct gd_private_entry_ *Pe = E->e->p.parent->e;
+      for (j = 0; j < Pe->n_meta; ++j)
+        if (Pe->p.meta_entry[j] == E) {
+          Pe->p.meta_entry[j] = Pe->p.meta_entry[--Pe->n_meta];
+          break;
+        }
+    }
+  }
+
   /* delete fields from the fragment -- memory use is not sufficient to warrant
    * resizing D->entry */
   old_count = D->n_entries;
   for (i = o = 0; i < old_count; ++i)
     if (_GD_ContainsFragment(f, nf, D->entry[i]->fragment_index)) {
-      if (D->entry[i]->e->n_meta >= 0)
-        D->n_entries--;
-
       _GD_FreeE(D, D->entry[i], 1);
+      D->n_entries--; /* top-level fields and metafields alike */
     } else
       D->entry[o++] = D->entry[i];
 
@@ -696,19 +718,50 @@ int gd_uninclude(DIRFILE* D, int fragment_index, int del)
   D->fragment[parent].modified = 1;
   D->flags &= ~GD_HAVE_VERSION;
 
-  /* delete the fragments -- again, don't bother resizing D->fragment */
+  /* delete the fragments -- again, don't bother resizing D->fragment.  Work
+   * from the highest index down, so that the fragment moved into a hole is
+   * never one that is still to be deleted. */
   for (j = 0; j < nf; ++j) {
-    _GD_FreeF(D, f[j], f[j] + 1);
+    int k, top = j;
+    for (k = j + 1; k < nf; ++k)
+      if (f[k] > f[top])
+        top = k;
+    k = f[top];
+    f[top] = f[j];
+    f[j] = k;
 
-    memcpy(D->fragment + f[j], D->fragment + D->n_fragment - 1,
-        sizeof(struct gd_fragment_t));
+    _GD_FreeF(D, f[j], f[j] + 1);
     D->n_fragment--;
 
-    /* Relocate all fields of the fragment we just moved */
-    for (i = 0; i < D->n_entries; ++i)
-      if (D->entry[i]->fragment_index == D->n_fragment)
-        D->entry[i]->fragment_index = f[j];
+    if (f[j] != D->n_fragment) {
+      memcpy(D->fragment + f[j], D->fragment + D->n_fragment,
+          sizeof(struct gd_fragment_t));
+
+      /* Relocate all fields and children of the fragment we just moved */
+      for (i = 0; i < D->n_entries; ++i)
+        if (D->entry[i]->fragment_index == D->n_fragment)
+          D->entry[i]->fragment_index = f[j];
+      for (k = 0; k < D->n_fragment; ++k)
+        if (D->fragment[k].parent == D->n_fragment)
+          D->fragment[k].parent = f[j];
+    }
   }
+
+  /* /REFERENCE directives naming a deleted field are gone, too */
+  for (j = 0; j < D->n_fragment; ++j)
+    if (D->fragment[j].ref_name && _GD_FindField(D, D->fragment[j].ref_name,
+          strlen(D->fragment[j].ref_name), D->entry, D->n_entries, 0, NULL)
+        == NULL)
+    {
+      free(D->fragment[j].ref_name);
+      D->fragment[j].ref_name = NULL;
+      D->fragment[j].modified = 1;
+    }
+
+  /* Fall back to the root fragment's reference field, if it has one left */
+  if (D->reference_field == NULL && D->fragment[0].ref_name)
+    D->reference_field = _GD_FindField(D, D->fragment[0].ref_name,
+        strlen(D->fragment[0].ref_name), D->entry, D->n_entries, 1, NULL);
 
   /* Clear the cache of all fields */
   for (i = 0; i < D->n_entries; ++i) {
@@ -722,6 +775,9 @@ int gd_uninclude(DIRFILE* D, int fragment_index, int del)
   /* Invalidate the field lists */
   D->fl.value_list_validity = 0;
   D->fl.entry_list_validity = 0;
+
+  /* the alias links were cleared with the rest of the cache: rehash them */
+  _GD_UpdateAliases(D, 1);
 
   free(f);
 
